@@ -360,7 +360,8 @@ struct Instance { ISubject * subject; bool stringKey; };
 
 inline std::vector<Instance> & instances()
 {
-	static std::vector<Instance> v;
+	// never destroyed: the subjects stay reachable at exit (a destroyed vector would turn them into leaks for LeakSanitizer)
+	static std::vector<Instance> & v = *new std::vector<Instance>();
 	if(v.empty()) {
 		Instance i;
 		i.stringKey = false;
